@@ -298,8 +298,8 @@ pub fn requests(prop: &str, fl: &str, g: &GraphSpec, thorough: bool, rng: Option
             }
         }
         "C10" => {
-            for d in if is_directed(fl) { vec!["fwd", "default"] } else { vec!["fwd"] } {
-                let ms = pick_methods(fl, false, rng, false);
+            for d in if is_directed(fl) { vec!["fwd", "tr", "default"] } else { vec!["fwd"] } {
+                let ms = pick_methods(fl, d == "tr", rng, false);
                 for &r in &roots {
                     for m in &ms {
                         for k in ["pre", "post"] {
@@ -339,7 +339,7 @@ pub fn requests(prop: &str, fl: &str, g: &GraphSpec, thorough: bool, rng: Option
             }
             ents.join(";")
         };
-        let ds = if prop == "C10" { if is_directed(fl) { vec!["fwd", "default"] } else { vec!["fwd"] } } else { dirs(fl, true) };
+        let ds = if prop == "C10" { if is_directed(fl) { vec!["fwd", "tr", "default"] } else { vec!["fwd"] } } else { dirs(fl, true) };
         for d in ds {
             for &(r, t) in pairs.iter().take(if small { 6 } else { 4 }) {
                 if n == 0 {
@@ -371,7 +371,7 @@ pub fn requests(prop: &str, fl: &str, g: &GraphSpec, thorough: bool, rng: Option
     let mut h = 0usize;
     if prop == "C10" || prop == "C07" || prop == "C08" {
         let opats = ["nodes+edges", "edges+nodes", "nodes+nodes", "edges+edges+nodes"];
-        for d in if prop == "C10" { if is_directed(fl) { vec!["fwd", "default"] } else { vec!["fwd"] } } else { dirs(fl, true) } {
+        for d in if prop == "C10" { if is_directed(fl) { vec!["fwd", "tr", "default"] } else { vec!["fwd"] } } else { dirs(fl, true) } {
             let ms = pick_methods(fl, d == "tr", rng, prop != "C10");
             for &r in &roots {
                 for m in ms.iter().take(3) {
